@@ -1245,5 +1245,6 @@ fn generate(rng: &mut Rng, tier: &str, w: &mut CaseWriter) {
 }
 
 fn main() {
-    nv::main_with(generate, run)
+    // serial: MultithreadedReader inflates on the global rayon pool, so cases must not occupy it
+    nv::main_serial(generate, run)
 }
